@@ -39,6 +39,15 @@ Proof. intros. destruct st; try reflexivity. congruence. Qed.
 Lemma html_str : forall s st cls, st <> SCloErr -> html (HS s) st cls = Some (html_string inline s st cls).
 Proof. intros. destruct st; try reflexivity. congruence. Qed.
 
+Lemma html_nil : forall st cls, st <> SCloErr -> html HNil st cls = Some ([OWrite s_nil], cls).
+Proof. intros. destruct st; try reflexivity. congruence. Qed.
+
+Lemma html_iter : forall st cls, html HErr st cls = None.
+Proof. intros. destruct st; reflexivity. Qed.
+
+Lemma html_item : forall r y st cls, html (HCell r y) st cls = html y st cls.
+Proof. intros. destruct st; try reflexivity. destruct y; reflexivity. Qed.
+
 Lemma html_map : forall l st cls, st <> SCloErr ->
   html (HM l) st cls =
   let '(a, cls0) := style_attr inline st cls in
@@ -52,6 +61,7 @@ Lemma html_list : forall items st cls, st <> SCloErr ->
   else match items with
        | [] => Some ([], cls)
        | first :: _ =>
+           if is_err first then None else if is_nil first then Some ([], cls) else
            let '(a, cls0) := style_attr inline st cls in
            bind (if is_HL first then table_rows maxl (cellf (tf_of st)) items 1 cls0
                  else simple_rows maxl to_td items 1 cls0)
@@ -66,12 +76,16 @@ Proof.
   destruct f; try discriminate. reflexivity.
 Qed.
 
-Lemma cell_fmt_eq : forall tf row col y cls f, tf_lookup tf row col = Some f -> f <> SCloId ->
+Lemma cell_res_eq : forall tf row col r y cls, tf_lookup tf row col = Some SCloRes ->
+  cellf tf row col (HCell r y) cls = to_td r cls.
+Proof. intros tf row col r y cls H. unfold cell_with. rewrite H. reflexivity. Qed.
+
+Lemma cell_fmt_eq : forall tf row col y cls f, tf_lookup tf row col = Some f -> f <> SCloId -> f <> SCloRes ->
   cellf tf row col y cls =
   let '(a, cls1) := style_attr inline f cls in
   bind (html y SNone cls1) (fun o cls2 => Some (OOpen s_td :: a ++ o ++ [OClose], cls2)).
 Proof.
-  intros tf row col y cls f H Hn. unfold cell_with. rewrite H. destruct f; try reflexivity. congruence.
+  intros tf row col y cls f H Hn Hr. unfold cell_with. rewrite H. destruct f; try reflexivity; congruence.
 Qed.
 
 (* ====================================================================== *)
@@ -86,10 +100,24 @@ Lemma simple_rows_err : forall l n i cls e, nth_error l n = Some e -> N.of_nat n
 Proof.
   induction l as [|x l IH]; intros n i cls e Hn Hi He; [destruct n; discriminate|].
   cbn [simple_rows]. assert (Hle : (i <=? maxl) = true) by (apply N.leb_le; lia). rewrite Hle.
+  destruct (is_err x); [reflexivity|].
   destruct n as [|n].
   - inversion Hn; subst. rewrite He. reflexivity.
   - cbn [nth_error] in Hn. destruct (td x cls) as [[o cls1]|]; [|reflexivity]. cbn [bind].
     rewrite (IH n (i + 1) cls1 e Hn); [reflexivity| |exact He]. lia.
+Qed.
+
+(* the iteration fails: also at the first position past the cut-off *)
+Lemma simple_rows_iter : forall l n i cls, nth_error l n = Some HErr -> N.of_nat n + i <= maxl + 1 ->
+  simple_rows maxl td l i cls = None.
+Proof.
+  induction l as [|x l IH]; intros n i cls Hn Hi; [destruct n; discriminate|].
+  cbn [simple_rows]. destruct n as [|n].
+  - inversion Hn; subst. reflexivity.
+  - cbn [nth_error] in Hn. destruct (is_err x); [reflexivity|].
+    assert (Hle : (i <=? maxl) = true) by (apply N.leb_le; lia). rewrite Hle.
+    destruct (td x cls) as [[o cls1]|]; [|reflexivity]. cbn [bind].
+    rewrite (IH n (i + 1) cls1 Hn); [reflexivity|lia].
 Qed.
 
 End LoopErr.
@@ -102,11 +130,24 @@ Lemma table_cells_err : forall row l n i cls e, nth_error l n = Some e -> N.of_n
 Proof.
   intros row. induction l as [|x l IH]; intros n i cls e Hn Hi He; [destruct n; discriminate|].
   cbn [table_cells]. assert (Hle : (i <=? maxl) = true) by (apply N.leb_le; lia). rewrite Hle.
+  destruct (is_err x); [reflexivity|].
   destruct n as [|n].
   - inversion Hn; subst. change (N.of_nat 0 + i) with i in He. rewrite He. reflexivity.
   - cbn [nth_error] in Hn. destruct (cell row i x cls) as [[o cls1]|]; [|reflexivity]. cbn [bind].
     rewrite (IH n (i + 1) cls1 e Hn); [reflexivity|lia|].
     intro c. replace (N.of_nat n + (i + 1)) with (N.of_nat (S n) + i) by lia. apply He.
+Qed.
+
+Lemma table_cells_iter : forall row l n i cls, nth_error l n = Some HErr -> N.of_nat n + i <= maxl + 1 ->
+  table_cells maxl cell row l i cls = None.
+Proof.
+  intros row. induction l as [|x l IH]; intros n i cls Hn Hi; [destruct n; discriminate|].
+  cbn [table_cells]. destruct n as [|n].
+  - inversion Hn; subst. reflexivity.
+  - cbn [nth_error] in Hn. destruct (is_err x); [reflexivity|].
+    assert (Hle : (i <=? maxl) = true) by (apply N.leb_le; lia). rewrite Hle.
+    destruct (cell row i x cls) as [[o cls1]|]; [|reflexivity]. cbn [bind].
+    rewrite (IH n (i + 1) cls1 Hn); [reflexivity|lia].
 Qed.
 
 (* the row itself fails, whatever class list it starts with *)
@@ -121,7 +162,7 @@ Lemma table_rows_err : forall l n i cls x, nth_error l n = Some x -> N.of_nat n 
 Proof.
   induction l as [|y l IH]; intros n i cls x Hn Hi Hx; [destruct n; discriminate|].
   cbn [table_rows]. assert (Hle : (i <=? maxl) = true) by (apply N.leb_le; lia). rewrite Hle.
-  fold (row_cells i y cls).
+  fold (row_cells i y cls). destruct (is_err y); [reflexivity|].
   destruct n as [|n].
   - inversion Hn; subst. change (N.of_nat 0 + i) with i in Hx. rewrite Hx. reflexivity.
   - cbn [nth_error] in Hn. destruct (row_cells i y cls) as [[o cls1]|]; [|reflexivity]. cbn [bind].
@@ -129,12 +170,24 @@ Proof.
     intro c. replace (N.of_nat n + (i + 1)) with (N.of_nat (S n) + i) by lia. apply Hx.
 Qed.
 
+Lemma table_rows_iter : forall l n i cls, nth_error l n = Some HErr -> N.of_nat n + i <= maxl + 1 ->
+  table_rows maxl cell l i cls = None.
+Proof.
+  induction l as [|y l IH]; intros n i cls Hn Hi; [destruct n; discriminate|].
+  cbn [table_rows]. fold (row_cells i y cls). destruct n as [|n].
+  - inversion Hn; subst. reflexivity.
+  - cbn [nth_error] in Hn. destruct (is_err y); [reflexivity|].
+    assert (Hle : (i <=? maxl) = true) by (apply N.leb_le; lia). rewrite Hle.
+    destruct (row_cells i y cls) as [[o cls1]|]; [|reflexivity]. cbn [bind].
+    rewrite (IH n (i + 1) cls1 Hn); [reflexivity|lia].
+Qed.
+
 End TLoopErr.
 
 Lemma plain_each_err : forall each l cls e, In e l -> (forall c, each e c = None) -> plain_each each l cls = None.
 Proof.
   intros each. induction l as [|x l IH]; intros cls e Hin He; [destruct Hin|].
-  cbn [plain_each]. destruct Hin as [->|Hin].
+  cbn [plain_each]. destruct (is_err x); [reflexivity|]. destruct Hin as [->|Hin].
   - rewrite He. reflexivity.
   - destruct (each x cls) as [[o cls1]|]; [|reflexivity]. cbn [bind]. rewrite (IH cls1 e Hin He). reflexivity.
 Qed.
@@ -151,72 +204,101 @@ Scheme fails_mut := Induction for fails Sort Prop
   with fails_td_mut := Induction for fails_td Sort Prop.
 Combined Scheme fails_both from fails_mut, fails_td_mut.
 
+Lemma sty_res_dec : forall st : sty, st = SCloRes \/ st <> SCloRes.
+Proof. destruct st; [right|right|right|right|right|left|right]; congruence. Qed.
+
 Lemma sty_dec : forall st : sty, st = SCloErr \/ st <> SCloErr.
-Proof. destruct st; [right|right|right|left|right|right]; congruence. Qed.
+Proof. destruct st; [right|right|right|left|right|right|right]; congruence. Qed.
+
+Lemma nil_of_HL : forall v, is_HL v = true -> is_nil v = false.
+Proof. destruct v; try discriminate; reflexivity. Qed.
+
+(* the common start of the list cases: past the style, the plainList test and the look at the first element *)
+Ltac list_start st Hs Hp H0 Hnil cls a cls0 :=
+  destruct (sty_dec st) as [->|Hs]; [apply html_clo|];
+  rewrite html_list by exact Hs; rewrite Hp;
+  match goal with |- context [match ?items with [] => _ | _ => _ end] =>
+    destruct items as [|?x0 ?items']; [discriminate|] end;
+  cbn [nth_error] in H0; inversion H0; subst;
+  match goal with |- context [is_err ?f] => destruct (is_err f); [reflexivity|] end;
+  rewrite Hnil;
+  destruct (style_attr inline st cls) as [a cls0].
 
 Theorem fails_err :
   (forall v st, fails maxl v st -> forall cls, html v st cls = None) /\
   (forall d, fails_td maxl d -> forall cls, to_td d cls = None).
 Proof.
   apply fails_both.
-  - intros v cls. apply html_clo.
-  - intros c cs f inner st _ IH cls. destruct (sty_dec st) as [->|Hs]; [apply html_clo|].
+  - (* F_here *) intros v cls. apply html_clo.
+  - (* F_iter *) intros st cls. apply html_iter.
+  - (* F_item *) intros r y st _ IH cls. rewrite html_item. apply IH.
+  - (* F_list_iter *) intros items first i st Hp H0 Hnil Hi Hle cls.
+    list_start st Hs Hp H0 Hnil cls a cls0.
+    destruct (is_HL first).
+    + rewrite (table_rows_iter (cellf (tf_of st)) _ i 1 cls0 Hi); [reflexivity|lia].
+    + rewrite (simple_rows_iter to_td _ i 1 cls0 Hi); [reflexivity|lia].
+  - (* F_cell_iter *) intros items first r cols c st Hp H0 Hf Hr Hlt Hc Hcle cls.
+    pose proof (nil_of_HL _ Hf) as Hnil. list_start st Hs Hp H0 Hnil cls a cls0. rewrite Hf.
+    rewrite (table_rows_err (cellf (tf_of st)) _ r 1 cls0 (HL cols) Hr); [reflexivity|lia|].
+    intro c0. unfold row_cells.
+    apply (table_cells_iter (cellf (tf_of st)) (N.of_nat r + 1) cols c 1 c0 Hc). lia.
+  - (* F_row_res *) intros items first r res y st Hp H0 Hf Hr Hlt Hlk _ IH cls.
+    pose proof (nil_of_HL _ Hf) as Hnil. list_start st Hs Hp H0 Hnil cls a cls0. rewrite Hf.
+    rewrite (table_rows_err (cellf (tf_of st)) _ r 1 cls0 (HCell res y) Hr); [reflexivity|lia|].
+    intro c. unfold row_cells. assert (H1 : (1 <=? maxl) = true) by (apply N.leb_le; lia).
+    rewrite H1. rewrite (cell_res_eq _ _ _ _ _ _ Hlk). apply IH.
+  - (* F_cell_res *) intros items first r cols c res y st Hp H0 Hf Hr Hlt Hc Hclt Hlk _ IH cls.
+    pose proof (nil_of_HL _ Hf) as Hnil. list_start st Hs Hp H0 Hnil cls a cls0. rewrite Hf.
+    rewrite (table_rows_err (cellf (tf_of st)) _ r 1 cls0 (HL cols) Hr); [reflexivity|lia|].
+    intro c0. unfold row_cells.
+    apply (table_cells_err (cellf (tf_of st)) (N.of_nat r + 1) cols c 1 c0 (HCell res y) Hc); [lia|].
+    intro c1. rewrite (cell_res_eq _ _ _ _ _ _ Hlk). apply IH.
+  - (* F_fmt *) intros c cs f inner st _ IH cls. destruct (sty_dec st) as [->|Hs]; [apply html_clo|].
     rewrite html_fmt by exact Hs. apply IH.
-  - intros l inner st _ IH cls. destruct (sty_dec st) as [->|Hs]; [apply html_clo|].
+  - (* F_lnk *) intros l inner st _ IH cls. destruct (sty_dec st) as [->|Hs]; [apply html_clo|].
     rewrite html_lnk by exact Hs. rewrite IH. reflexivity.
-  - intros c cs r inner st _ IH cls. destruct (sty_dec st) as [->|Hs]; [apply html_clo|].
+  - (* F_clo *) intros c cs r inner st _ IH cls. destruct (sty_dec st) as [->|Hs]; [apply html_clo|].
     rewrite html_fmtclo by exact Hs. apply IH.
-  - intros l k e st Hin _ IH cls. destruct (sty_dec st) as [->|Hs]; [apply html_clo|].
+  - (* F_map *) intros l k e st Hin _ IH cls. destruct (sty_dec st) as [->|Hs]; [apply html_clo|].
     rewrite html_map by exact Hs. destruct (style_attr inline st cls) as [a cls0].
     rewrite (map_rows_err _ cls0 k (to_td e)); [reflexivity| |exact IH].
     eapply Permutation_in; [apply sort_keys_perm|].
     apply in_map_iff. exists (k, e). split; [reflexivity|exact Hin].
-  - intros items e st Hp Hin _ IH cls. destruct (sty_dec st) as [->|Hs]; [apply html_clo|].
+  - (* F_plain *) intros items e st Hp Hin _ IH cls. destruct (sty_dec st) as [->|Hs]; [apply html_clo|].
     rewrite html_list by exact Hs. rewrite Hp. apply (plain_each_err _ items cls e Hin). exact IH.
-  - intros items first i e st Hp H0 Hf Hi Hlt _ IH cls. destruct (sty_dec st) as [->|Hs]; [apply html_clo|].
-    rewrite html_list by exact Hs. rewrite Hp.
-    destruct items as [|x items']; [discriminate|]. cbn [nth_error] in H0. inversion H0; subst x.
-    destruct (style_attr inline st cls) as [a cls0]. rewrite Hf.
+  - (* F_list *) intros items first i e st Hp H0 Hf Hnil Hi Hlt _ IH cls.
+    list_start st Hs Hp H0 Hnil cls a cls0. rewrite Hf.
     rewrite (simple_rows_err to_td _ i 1 cls0 e Hi); [reflexivity|lia|exact IH].
-  - intros items first r x st Hp H0 Hf Hr Hlt Hx Hlk _ IH cls. destruct (sty_dec st) as [->|Hs]; [apply html_clo|].
-    rewrite html_list by exact Hs. rewrite Hp.
-    destruct items as [|x0 items']; [discriminate|]. cbn [nth_error] in H0. inversion H0; subst x0.
-    destruct (style_attr inline st cls) as [a cls0]. rewrite Hf.
+  - (* F_row *) intros items first r x st Hp H0 Hf Hr Hlt Hx Hlk _ IH cls.
+    pose proof (nil_of_HL _ Hf) as Hnil. list_start st Hs Hp H0 Hnil cls a cls0. rewrite Hf.
     rewrite (table_rows_err (cellf (tf_of st)) _ r 1 cls0 x Hr); [reflexivity|lia|].
     intro c. unfold row_cells. assert (H1 : (1 <=? maxl) = true) by (apply N.leb_le; lia).
     destruct x; try discriminate; rewrite H1; rewrite (cell_plain_eq _ _ _ _ _ Hlk); apply IH.
-  - intros items first r x f st Hp H0 Hf Hr Hlt Hx Hlk Hnf _ IH cls. destruct (sty_dec st) as [->|Hs]; [apply html_clo|].
-    rewrite html_list by exact Hs. rewrite Hp.
-    destruct items as [|x0 items']; [discriminate|]. cbn [nth_error] in H0. inversion H0; subst x0.
-    destruct (style_attr inline st cls) as [a cls0]. rewrite Hf.
+  - (* F_row_fmt *) intros items first r x f st Hp H0 Hf Hr Hlt Hx Hlk Hnf Hnr _ IH cls.
+    pose proof (nil_of_HL _ Hf) as Hnil. list_start st Hs Hp H0 Hnil cls a cls0. rewrite Hf.
     rewrite (table_rows_err (cellf (tf_of st)) _ r 1 cls0 x Hr); [reflexivity|lia|].
     intro c. unfold row_cells. assert (H1 : (1 <=? maxl) = true) by (apply N.leb_le; lia).
-    destruct x; try discriminate; rewrite H1; rewrite (cell_fmt_eq _ _ _ _ _ f Hlk Hnf);
+    destruct x; try discriminate; rewrite H1; rewrite (cell_fmt_eq _ _ _ _ _ f Hlk Hnf Hnr);
       destruct (style_attr inline f c) as [a1 c1]; rewrite IH; reflexivity.
-  - intros items first r cols c y st Hp H0 Hf Hr Hlt Hc Hclt Hlk _ IH cls.
-    destruct (sty_dec st) as [->|Hs]; [apply html_clo|].
-    rewrite html_list by exact Hs. rewrite Hp.
-    destruct items as [|x0 items']; [discriminate|]. cbn [nth_error] in H0. inversion H0; subst x0.
-    destruct (style_attr inline st cls) as [a cls0]. rewrite Hf.
+  - (* F_cell *) intros items first r cols c y st Hp H0 Hf Hr Hlt Hc Hclt Hlk _ IH cls.
+    pose proof (nil_of_HL _ Hf) as Hnil. list_start st Hs Hp H0 Hnil cls a cls0. rewrite Hf.
     rewrite (table_rows_err (cellf (tf_of st)) _ r 1 cls0 (HL cols) Hr); [reflexivity|lia|].
     intro c0. unfold row_cells.
     apply (table_cells_err (cellf (tf_of st)) (N.of_nat r + 1) cols c 1 c0 y Hc); [lia|].
     intro c1. rewrite (cell_plain_eq _ _ _ _ _ Hlk). apply IH.
-  - intros items first r cols c y f st Hp H0 Hf Hr Hlt Hc Hclt Hlk Hnf _ IH cls.
-    destruct (sty_dec st) as [->|Hs]; [apply html_clo|].
-    rewrite html_list by exact Hs. rewrite Hp.
-    destruct items as [|x0 items']; [discriminate|]. cbn [nth_error] in H0. inversion H0; subst x0.
-    destruct (style_attr inline st cls) as [a cls0]. rewrite Hf.
+  - (* F_cell_fmt *) intros items first r cols c y f st Hp H0 Hf Hr Hlt Hc Hclt Hlk Hnf Hnr _ IH cls.
+    pose proof (nil_of_HL _ Hf) as Hnil. list_start st Hs Hp H0 Hnil cls a cls0. rewrite Hf.
     rewrite (table_rows_err (cellf (tf_of st)) _ r 1 cls0 (HL cols) Hr); [reflexivity|lia|].
     intro c0. unfold row_cells.
     apply (table_cells_err (cellf (tf_of st)) (N.of_nat r + 1) cols c 1 c0 y Hc); [lia|].
-    intro c1. rewrite (cell_fmt_eq _ _ _ _ _ f Hlk Hnf). destruct (style_attr inline f c1) as [a1 c2]. rewrite IH. reflexivity.
-  - intros cs f inner Hl _ IH cls. unfold to_td_with. rewrite Hl. cbn [negb andb]. rewrite IH. reflexivity.
-  - intros cell cs f inner Hc _ IH cls. unfold to_td_with. rewrite Hc.
+    intro c1. rewrite (cell_fmt_eq _ _ _ _ _ f Hlk Hnf Hnr). destruct (style_attr inline f c1) as [a1 c2]. rewrite IH. reflexivity.
+  - (* T_list *) intros cs f inner Hl _ IH cls. cbn [to_td_with]. rewrite Hl. cbn [negb andb]. rewrite IH. reflexivity.
+  - (* T_other *) intros cell cs f inner Hc _ IH cls. cbn [to_td_with]. rewrite Hc.
     destruct (style_attr inline f cls) as [a cls1]. rewrite IH. reflexivity.
-  - intros cs r inner Hl _ IH cls. unfold to_td_with. rewrite Hl. cbn [negb andb]. rewrite IH. reflexivity.
-  - intros cell cs r inner Hc _ IH cls. unfold to_td_with. rewrite Hc. rewrite IH. reflexivity.
-  - intros d Hd _ IH cls. unfold to_td_with. destruct d; try discriminate; rewrite IH; reflexivity.
+  - (* T_clo_list *) intros cs r inner Hl _ IH cls. cbn [to_td_with]. rewrite Hl. cbn [negb andb]. rewrite IH. reflexivity.
+  - (* T_clo_other *) intros cell cs r inner Hc _ IH cls. cbn [to_td_with]. rewrite Hc. rewrite IH. reflexivity.
+  - (* T_item *) intros r y _ IH cls. cbn [to_td_with]. apply IH.
+  - (* T_plain *) intros d Hd _ IH cls. destruct d; try discriminate; cbn [to_td_with]; rewrite IH; reflexivity.
 Qed.
 
 (* ====================================================================== *)
@@ -392,7 +474,7 @@ Qed.
 
 Lemma style_str_legal : forall st s, legal_sty st = true -> style_str st = Some s -> legal s = true.
 Proof.
-  intros st s Hl Hs. destruct st as [|x|l| | |l tf]; cbn [style_str] in Hs; try discriminate.
+  intros st s Hl Hs. destruct st as [|x|l| | | |l tf]; cbn [style_str] in Hs; try discriminate.
   - inversion Hs; subst. exact Hl.
   - apply (css_legal l s Hl Hs).
   - cbn [legal_sty] in Hl. apply andb_true_iff in Hl. destruct Hl as [Hl _]. apply (css_legal l s Hl Hs).
@@ -462,7 +544,7 @@ Lemma simple_rows_seg : forall l, (forall x, In x l -> forall c, seg (okels stri
 Proof.
   induction l as [|x l IH]; intros H i cls.
   - exists []. split; [reflexivity|apply okels_nil].
-  - cbn [simple_rows]. destruct (i <=? maxl).
+  - cbn [simple_rows]. destruct (is_err x); [exact I|]. destruct (i <=? maxl).
     + pose proof (H x (or_introl eq_refl) cls) as Hx.
       destruct (td x cls) as [[o cls1]|]; [|exact I]. cbn [bind].
       pose proof (IH (fun y Hy => H y (or_intror Hy)) (i + 1) cls1) as Hr.
@@ -486,7 +568,7 @@ Lemma table_cells_seg : forall row l, (forall x, In x l -> forall col c, seg (ok
 Proof.
   intros row. induction l as [|x l IH]; intros H i cls.
   - exists []. split; [reflexivity|apply okels_nil].
-  - cbn [table_cells]. destruct (i <=? maxl).
+  - cbn [table_cells]. destruct (is_err x); [exact I|]. destruct (i <=? maxl).
     + pose proof (H x (or_introl eq_refl) i cls) as Hx.
       destruct (cell row i x cls) as [[o cls1]|]; [|exact I]. cbn [bind].
       pose proof (IH (fun y Hy => H y (or_intror Hy)) (i + 1) cls1) as Hr.
@@ -501,7 +583,7 @@ Lemma table_rows_seg : forall l, (forall x, In x l -> forall row c, seg (okels s
 Proof.
   induction l as [|x l IH]; intros H i cls.
   - exists []. split; [reflexivity|apply okels_nil].
-  - cbn [table_rows]. fold (row_cells cell i x cls). destruct (i <=? maxl).
+  - cbn [table_rows]. fold (row_cells cell i x cls). destruct (is_err x); [exact I|]. destruct (i <=? maxl).
     + pose proof (H x (or_introl eq_refl) i cls) as Hx.
       destruct (row_cells cell i x cls) as [[o cls1]|]; [|exact I]. cbn [bind].
       pose proof (IH (fun y Hy => H y (or_intror Hy)) (i + 1) cls1) as Hr.
@@ -547,7 +629,7 @@ Lemma plain_each_seg : forall each l, (forall x, In x l -> forall c, seg (okf fa
 Proof.
   intros each. induction l as [|x l IH]; intros H cls.
   - exists []. split; [reflexivity|apply okf_nil].
-  - cbn [plain_each]. pose proof (H x (or_introl eq_refl) cls) as Hx.
+  - cbn [plain_each]. destruct (is_err x); [exact I|]. pose proof (H x (or_introl eq_refl) cls) as Hx.
     destruct (each x cls) as [[o cls1]|]; [|exact I]. cbn [bind].
     pose proof (IH (fun y Hy => H y (or_intror Hy)) cls1) as Hr.
     destruct (plain_each each l cls1) as [[os cls2]|]; [|exact I]. cbn [bind seg] in *.
@@ -595,18 +677,22 @@ Fixpoint hval_ind' (P : hval -> Prop)
   (HLk : forall l v, P v -> P (HLnk l v))
   (HFi : forall name mime b64 size, P (HFile name mime b64 size))
   (HFc : forall c cs r v, P r -> P v -> P (HFmtClo c cs r v))
+  (HNi : P HNil) (HEr : P HErr) (HCe : forall r y, P r -> P y -> P (HCell r y))
   (v : hval) : P v :=
   match v with
   | HS s => HS_ s
   | HFloat s => HF_ s
   | HL l => HL_ l ((fix go (l : list hval) : Forall P l :=
-                      match l with [] => Forall_nil _ | x :: r => Forall_cons _ (hval_ind' P HS_ HF_ HL_ HM_ HFm HLk HFi HFc x) (go r) end) l)
+                      match l with [] => Forall_nil _ | x :: r => Forall_cons _ (hval_ind' P HS_ HF_ HL_ HM_ HFm HLk HFi HFc HNi HEr HCe x) (go r) end) l)
   | HM l => HM_ l ((fix go (l : list (str * hval)) : Forall (fun kv => P (snd kv)) l :=
-                      match l with [] => Forall_nil _ | x :: r => Forall_cons _ (hval_ind' P HS_ HF_ HL_ HM_ HFm HLk HFi HFc (snd x)) (go r) end) l)
-  | HFmt c cs st v => HFm c cs st v (hval_ind' P HS_ HF_ HL_ HM_ HFm HLk HFi HFc v)
-  | HLnk l v => HLk l v (hval_ind' P HS_ HF_ HL_ HM_ HFm HLk HFi HFc v)
+                      match l with [] => Forall_nil _ | x :: r => Forall_cons _ (hval_ind' P HS_ HF_ HL_ HM_ HFm HLk HFi HFc HNi HEr HCe (snd x)) (go r) end) l)
+  | HFmt c cs st v => HFm c cs st v (hval_ind' P HS_ HF_ HL_ HM_ HFm HLk HFi HFc HNi HEr HCe v)
+  | HLnk l v => HLk l v (hval_ind' P HS_ HF_ HL_ HM_ HFm HLk HFi HFc HNi HEr HCe v)
   | HFile name mime b64 size => HFi name mime b64 size
-  | HFmtClo c cs r v => HFc c cs r v (hval_ind' P HS_ HF_ HL_ HM_ HFm HLk HFi HFc r) (hval_ind' P HS_ HF_ HL_ HM_ HFm HLk HFi HFc v)
+  | HFmtClo c cs r v => HFc c cs r v (hval_ind' P HS_ HF_ HL_ HM_ HFm HLk HFi HFc HNi HEr HCe r) (hval_ind' P HS_ HF_ HL_ HM_ HFm HLk HFi HFc HNi HEr HCe v)
+  | HNil => HNi
+  | HErr => HEr
+  | HCell r y => HCe r y (hval_ind' P HS_ HF_ HL_ HM_ HFm HLk HFi HFc HNi HEr HCe r) (hval_ind' P HS_ HF_ HL_ HM_ HFm HLk HFi HFc HNi HEr HCe y)
   end.
 
 (* toHtml *)
@@ -620,14 +706,17 @@ Definition Qh (v : hval) : Prop :=
   forall strict cls, legal_h v = true -> (strict = true -> pfree v = true) ->
     seg (okels strict) (to_td v cls).
 
+(* the value a table-format closure returns for an item, in a cell *)
+Definition Rh (v : hval) : Prop := forall r y, v = HCell r y -> Qh r.
+
 Definition PQ (v : hval) : Prop :=
-  Ph v /\ Qh v /\ (forall cols, v = HL cols -> forall y, In y cols -> Ph y /\ Qh y).
+  Ph v /\ Qh v /\ (forall cols, v = HL cols -> forall y, In y cols -> Ph y /\ Qh y /\ Rh y) /\ Rh v.
 
 Lemma seg_clo : forall P v cls, seg P (html v SCloErr cls).
 Proof. intros. rewrite html_clo. exact I. Qed.
 
 (* a cell around a value that is not a Format *)
-Lemma td_plain : forall d, (match d with HFmt _ _ _ _ | HFmtClo _ _ _ _ => false | _ => true end) = true -> Ph d -> Qh d.
+Lemma td_plain : forall d, (match d with HFmt _ _ _ _ | HFmtClo _ _ _ _ | HCell _ _ => false | _ => true end) = true -> Ph d -> Qh d.
 Proof.
   intros d Hd HP strict cls Ll Hs.
   assert (E : to_td d cls = bind (html d SNone cls) (fun o cls1 => Some (OOpen s_td :: o ++ [OClose], cls1)))
@@ -645,7 +734,7 @@ Proof.
   assert (Hs' : strict = true -> pfree inner = true /\ has_plain fs = false).
   { intro H. specialize (Hs H). cbn [pfree] in Hs. apply andb_true_iff in Hs. destruct Hs as [A B].
     apply negb_true_iff in A. auto. }
-  unfold to_td_with.
+  cbn [to_td_with].
   set (span := if 1 <? cs then [OAttr s_colspan (itoa cs)] else []).
   assert (Hspan : exists sa, span = attr_ops sa /\ forallb (fun kv => legal (snd kv)) sa = true /\
                              (map fst sa = [] \/ map fst sa = [s_colspan])).
@@ -677,7 +766,7 @@ Proof.
   cbn [legal_h] in Ll. apply andb_true_iff in Ll. destruct Ll as [Lr Li].
   assert (Hs' : strict = true -> pfree r = true /\ pfree inner = true).
   { intro H. specialize (Hs H). cbn [pfree] in Hs. apply andb_true_iff in Hs. exact Hs. }
-  unfold to_td_with.
+  cbn [to_td_with].
   set (span := if 1 <? cs then [OAttr s_colspan (itoa cs)] else []).
   assert (Hspan : exists sa, span = attr_ops sa /\ forallb (fun kv => legal (snd kv)) sa = true /\
                              (map fst sa = [] \/ map fst sa = [s_colspan])).
@@ -695,6 +784,13 @@ Proof.
   destruct (is_HL inner && negb cell).
   - apply K; [exact HPr|exact Lr|]. intro H. apply (Hs' H).
   - apply K; [exact HPi|exact Li|]. intro H. apply (Hs' H).
+Qed.
+
+Lemma td_item : forall r y, Qh y -> Qh (HCell r y).
+Proof.
+  intros r y HQ strict cls Ll Hs. cbn [to_td_with].
+  cbn [legal_h] in Ll. apply andb_true_iff in Ll. destruct Ll as [_ Ly].
+  apply HQ; [exact Ly|]. intro H. specialize (Hs H). cbn [pfree] in Hs. apply andb_true_iff in Hs. tauto.
 Qed.
 
 Lemma assoc_some_in : forall A k (l : list (str * A)) v, assoc k l = Some v -> exists k', In (k', v) l.
@@ -719,16 +815,23 @@ Proof.
   intros st H. destruct st; try reflexivity. cbn [legal_sty] in H. apply andb_true_iff in H. destruct H as [_ H]. exact H.
 Qed.
 
-(* a table cell: with a format for its position the cell carries the format, the content is the item *)
-Lemma cell_seg : forall tf y, forallb (fun kv => legal_sty (snd kv)) tf = true -> Ph y -> Qh y ->
+(* a table cell: with a format for its position the cell carries the format, the content is the item; with a
+   succeeding closure the cell is that of the value recorded at the item *)
+Lemma cell_seg : forall tf y, forallb (fun kv => legal_sty (snd kv)) tf = true -> Ph y -> Qh y -> Rh y ->
   forall strict row col c, legal_h y = true -> (strict = true -> pfree y = true) ->
   seg (okels strict) (cellf tf row col y c).
 Proof.
-  intros tf y Ltf HP HQ strict row col c Ly Hs.
+  intros tf y Ltf HP HQ HR strict row col c Ly Hs.
   destruct (cell_plain (tf_lookup tf row col)) eqn:Ecp; [rewrite (cell_plain_eq _ _ _ _ _ Ecp); apply HQ; assumption|].
   destruct (tf_lookup tf row col) as [f|] eqn:E; [|discriminate].
   assert (Hnf : f <> SCloId) by (intro; subst; discriminate).
-  rewrite (cell_fmt_eq _ _ _ _ _ f E Hnf).
+  destruct (sty_res_dec f) as [->|Hnr].
+  { unfold cell_with. rewrite E.
+    destruct y; try (apply HQ; assumption).
+    cbn [legal_h] in Ly. apply andb_true_iff in Ly. destruct Ly as [Lr _].
+    apply (HR _ _ eq_refl strict c Lr). intro H. specialize (Hs H). cbn [pfree] in Hs.
+    apply andb_true_iff in Hs. tauto. }
+  rewrite (cell_fmt_eq _ _ _ _ _ f E Hnf Hnr).
   destruct (tf_lookup_in tf row col f E) as [k Hin].
   rewrite forallb_forall in Ltf. pose proof (Ltf _ Hin) as Lf. cbn [snd] in Lf.
   destruct (style_attr_spec f c Lf) as [a [Ea [La Sa]]].
@@ -742,22 +845,22 @@ Qed.
 
 Theorem html_seg : forall v, PQ v.
 Proof.
-  induction v as [s|s|items IH|l IH|c cs fs inner IH|lk inner IH|name mime b64 size|c cs r inner IHr IHi] using hval_ind'.
+  induction v as [s|s|items IH|l IH|c cs fs inner IH|lk inner IH|name mime b64 size|c cs r inner IHr IHi| | |r y IHr IHy] using hval_ind'.
   - (* string / int / bool *)
     assert (HP : Ph (HS s)).
     { intros strict st cls Ll Lst Hs. destruct (sty_dec st) as [->|Hn]; [apply seg_clo|].
       rewrite html_str by exact Hn. apply html_string_seg; assumption. }
-    split; [exact HP|]. split; [apply td_plain; [reflexivity|exact HP]|discriminate].
+    split; [exact HP|]. split; [apply td_plain; [reflexivity|exact HP]|split; discriminate].
   - (* float *)
     assert (HP : Ph (HFloat s)).
     { intros strict st cls Ll Lst Hs. destruct (sty_dec st) as [->|Hn]; [apply seg_clo|].
       rewrite html_float by exact Hn. exists (map Tx [s]). split; [reflexivity|].
       apply okf_txs. cbn [forallb]. cbn [legal_h] in Ll. rewrite Ll. reflexivity. }
-    split; [exact HP|]. split; [apply td_plain; [reflexivity|exact HP]|discriminate].
+    split; [exact HP|]. split; [apply td_plain; [reflexivity|exact HP]|split; discriminate].
   - (* list *)
     assert (HQ : forall y, In y items -> Qh y).
     { rewrite Forall_forall in IH. intros y Hy. apply (IH y Hy). }
-    assert (HR : forall x, In x items -> forall cols, x = HL cols -> forall y, In y cols -> Ph y /\ Qh y).
+    assert (HR : forall x, In x items -> forall cols, x = HL cols -> forall y, In y cols -> Ph y /\ Qh y /\ Rh y).
     { rewrite Forall_forall in IH. intros x Hx. apply (IH x Hx). }
     assert (HP : Ph (HL items)).
     { intros strict st cls Ll Lst Hs. destruct (sty_dec st) as [->|Hn]; [apply seg_clo|].
@@ -767,6 +870,8 @@ Proof.
         apply plain_each_seg. intros x Hx c0. rewrite Forall_forall in IH.
         apply (proj1 (IH x Hx) false SNone c0 (Ll x Hx) eq_refl). discriminate.
       - destruct items as [|first rest]; [exists []; split; [reflexivity|apply okf_nil]|].
+        destruct (is_err first); [exact I|].
+        destruct (is_nil first); [exists []; split; [reflexivity|apply okf_nil]|].
         destruct (style_attr_spec st cls Lst) as [a [Ea [La Sa]]].
         destruct (style_attr inline st cls) as [ao cls0]. cbn [fst] in Ea. subst ao.
         assert (Hpf : strict = true -> forall x, In x (first :: rest) -> pfree x = true).
@@ -779,12 +884,12 @@ Proof.
         { destruct (is_HL first).
           - apply table_rows_seg. intros x Hx. apply row_cells_seg.
             + intros row col c0. rewrite Forall_forall in IH.
-              apply (cell_seg (tf_of st) x Ltf (proj1 (IH x Hx)) (HQ x Hx) strict row col c0 (Ll x Hx)).
+              apply (cell_seg (tf_of st) x Ltf (proj1 (IH x Hx)) (HQ x Hx) (proj2 (proj2 (proj2 (IH x Hx)))) strict row col c0 (Ll x Hx)).
               intro H. apply Hpf; assumption.
             + intros cols Ex y Hy row col c0. subst x.
               pose proof (Ll _ Hx) as Lx. cbn [legal_h] in Lx. rewrite forallb_forall in Lx.
-              destruct (HR _ Hx cols eq_refl y Hy) as [Py Qy].
-              apply (cell_seg (tf_of st) y Ltf Py Qy strict row col c0 (Lx y Hy)).
+              destruct (HR _ Hx cols eq_refl y Hy) as [Py [Qy Ry]].
+              apply (cell_seg (tf_of st) y Ltf Py Qy Ry strict row col c0 (Lx y Hy)).
               intro H. pose proof (Hpf H _ Hx) as Px. cbn [pfree] in Px. rewrite forallb_forall in Px. apply Px. exact Hy.
           - apply simple_rows_seg. exact TD. }
         destruct (if is_HL first then table_rows maxl (cellf (tf_of st)) (first :: rest) 1 cls0
@@ -794,7 +899,9 @@ Proof.
         apply okels_okf. apply el_ok; [in_elems| |exact La|apply okels_okf; exact Hr].
         unfold attr_shapes. cbn [In]. destruct Sa as [->|[->| ->]]; tauto. }
     split; [exact HP|]. split; [apply td_plain; [reflexivity|exact HP]|].
-    intros cols E y Hy. inversion E; subst cols. rewrite Forall_forall in IH. split; [apply (IH y Hy)|apply HQ; exact Hy].
+    split; [|discriminate].
+    intros cols E y Hy. inversion E; subst cols. rewrite Forall_forall in IH.
+    split; [apply (IH y Hy)|split; [apply HQ; exact Hy|apply (proj2 (proj2 (proj2 (IH y Hy))))]].
   - (* map *)
     assert (HP : Ph (HM l)).
     { intros strict st cls Ll Lst Hs. destruct (sty_dec st) as [->|Hn]; [apply seg_clo|].
@@ -815,7 +922,7 @@ Proof.
       exists [El s_table a fr]. split; [rewrite ops_el; reflexivity|].
       apply okels_okf. apply el_ok; [in_elems| |exact La|apply okels_okf; exact Hr].
       unfold attr_shapes. cbn [In]. destruct Sa as [->|[->| ->]]; tauto. }
-    split; [exact HP|]. split; [apply td_plain; [reflexivity|exact HP]|discriminate].
+    split; [exact HP|]. split; [apply td_plain; [reflexivity|exact HP]|split; discriminate].
   - (* Format *)
     destruct IH as [IP _].
     assert (HP : Ph (HFmt c cs fs inner)).
@@ -823,7 +930,7 @@ Proof.
       rewrite html_fmt by exact Hn. cbn [legal_h] in Ll. apply andb_true_iff in Ll. destruct Ll as [Lf Li].
       apply IP; [exact Li|exact Lf|]. intro H. destruct (Hs H) as [A _]. cbn [pfree] in A.
       apply andb_true_iff in A. destruct A as [A B]. apply negb_true_iff in A. auto. }
-    split; [exact HP|]. split; [apply td_fmt; exact IP|discriminate].
+    split; [exact HP|]. split; [apply td_fmt; exact IP|split; discriminate].
   - (* Link *)
     destruct IH as [IP _].
     assert (HP : Ph (HLnk lk inner)).
@@ -833,7 +940,7 @@ Proof.
       destruct (html inner st cls) as [[o cls1]|]; [|exact I]. cbn [bind seg] in *.
       destruct IP as [f [Eo Hf]]. subst o. exists [El s_a [(s_href, lk)] f]. split; [rewrite ops_el; reflexivity|].
       apply okels_okf. apply el_ok; [in_elems|in_shapes| |exact Hf]. cbn [forallb snd]. rewrite Lk. reflexivity. }
-    split; [exact HP|]. split; [apply td_plain; [reflexivity|exact HP]|discriminate].
+    split; [exact HP|]. split; [apply td_plain; [reflexivity|exact HP]|split; discriminate].
   - (* File *)
     assert (HP : Ph (HFile name mime b64 size)).
     { intros strict st cls Ll Lst Hs. destruct (sty_dec st) as [->|Hn]; [apply seg_clo|].
@@ -848,7 +955,7 @@ Proof.
       split; [reflexivity|]. apply okels_okf. apply el_ok; [in_elems|in_shapes| |].
       - cbn [forallb snd]. rewrite Lh, Ln. reflexivity.
       - apply okf_txs. cbn [forallb]. rewrite Lt. reflexivity. }
-    split; [exact HP|]. split; [apply td_plain; [reflexivity|exact HP]|discriminate].
+    split; [exact HP|]. split; [apply td_plain; [reflexivity|exact HP]|split; discriminate].
   - (* Format with a closure style that succeeds *)
     destruct IHr as [IPr _]. destruct IHi as [IPi _].
     assert (HP : Ph (HFmtClo c cs r inner)).
@@ -856,7 +963,26 @@ Proof.
       rewrite html_fmtclo by exact Hn. cbn [legal_h] in Ll. apply andb_true_iff in Ll. destruct Ll as [Lr Li].
       apply IPr; [exact Lr|reflexivity|]. intro H. destruct (Hs H) as [A _]. cbn [pfree] in A.
       apply andb_true_iff in A. destruct A as [A B]. auto. }
-    split; [exact HP|]. split; [apply td_fmtclo; assumption|discriminate].
+    split; [exact HP|]. split; [apply td_fmtclo; assumption|split; discriminate].
+  - (* nil *)
+    assert (HP : Ph HNil).
+    { intros strict st cls Ll Lst Hs. destruct (sty_dec st) as [->|Hn]; [apply seg_clo|].
+      rewrite html_nil by exact Hn. exists (map Tx [s_nil]). split; [reflexivity|].
+      apply okf_txs. reflexivity. }
+    split; [exact HP|]. split; [apply td_plain; [reflexivity|exact HP]|split; discriminate].
+  - (* the iteration fails *)
+    assert (HP : Ph HErr).
+    { intros strict st cls Ll Lst Hs. rewrite html_iter. exact I. }
+    split; [exact HP|]. split; [apply td_plain; [reflexivity|exact HP]|split; discriminate].
+  - (* an item with the recorded result of a table-format closure *)
+    destruct IHy as [IPy [IQy _]]. destruct IHr as [_ [IQr _]].
+    assert (HP : Ph (HCell r y)).
+    { intros strict st cls Ll Lst Hs. rewrite html_item.
+      cbn [legal_h] in Ll. apply andb_true_iff in Ll. destruct Ll as [_ Ly].
+      apply IPy; [exact Ly|exact Lst|]. intro H. destruct (Hs H) as [A B]. cbn [pfree] in A.
+      apply andb_true_iff in A. tauto. }
+    split; [exact HP|]. split; [apply td_item; exact IQy|]. split; [discriminate|].
+    intros r0 y0 E. inversion E; subst. exact IQr.
 Qed.
 
 End Model.
@@ -884,6 +1010,48 @@ Proof.
   exists f, out. rewrite R. repeat split; try assumption. apply tree_of_forest.
 Qed.
 
+(* canonical forms keep the names *)
+Lemma canon_names : forall f, forallb hnames f = true -> forallb hnames (canon_forest f) = true.
+Proof.
+  intros f Nm. unfold canon_forest. destruct (forallb is_tx f).
+  - unfold tx_join. destruct (tx_concat f); reflexivity.
+  - assert (CN : forall n, hnames n = true -> hnames (canon n) = true).
+    { induction n as [s|name a kids IH] using node_ind'; intro Hn; [reflexivity|].
+      unfold hnames in *. cbn [names_in canon] in *. apply andb_true_iff in Hn. destruct Hn as [Hn Hk]. rewrite Hn. cbn [andb].
+      destruct (forallb is_tx kids).
+      - unfold tx_join. destruct (tx_concat kids); reflexivity.
+      - rewrite forallb_forall in *. rewrite Forall_forall in IH. intros x Hx.
+        apply in_map_iff in Hx. destruct Hx as [y [Ey Hy]]. subst x. apply IH; [exact Hy|apply Hk; exact Hy]. }
+    rewrite forallb_forall in *. intros x Hx. apply in_map_iff in Hx. destruct Hx as [y [Ey Hy]]. subst x.
+    apply CN. apply Nm. exact Hy.
+Qed.
+
+(* the exact side condition of the injection statement, on the forest of the calls: for EVERY legal value (plainList
+   included) whose rendering succeeds, if no element of the forest of the calls has both character data and
+   element children, and the top level has not both (unmixed_forest), the markup parses back to exactly that
+   forest - every string given to Write / Attr is decoded exactly, every name is one of ToHtml's constants *)
+Theorem html_no_injection_unmixed : forall tt ta, xml_table_ok tt ta = true ->
+  forall maxl inline v, legal_h v = true ->
+  match to_html (eff_max maxl) inline v SNone [] with
+  | None => to_html_doc tt ta maxl inline v = HError
+  | Some (ops, cls) =>
+      exists f out, ops = flat_map ops_of f /\ forallb hnames f = true /\
+        to_html_doc tt ta maxl inline v = HOk out cls /\
+        (unmixed_forest f = true ->
+         xml_fragment out = Some (canon_forest f) /\ forallb hnames (canon_forest f) = true)
+  end.
+Proof.
+  intros tt ta Hok maxl inline v Ll. unfold to_html_doc. fold (eff_max maxl).
+  pose proof (proj1 (html_seg (eff_max maxl) inline v) false SNone [] Ll eq_refl ltac:(discriminate)) as H.
+  destruct (to_html (eff_max maxl) inline v SNone []) as [[ops cls]|]; [|reflexivity].
+  cbn [seg] in H. destruct H as [f [E [W Nm _]]]. subst ops.
+  destruct (run_forest_ok (html_cfg tt ta) f) as [out [st [R _]]].
+  exists f, out. rewrite R. repeat split; try assumption.
+  - destruct (forest_wellformed tt ta Hok true true f H W) as [out' [st' [R' P]]].
+    change (cfg tt ta true true) with (html_cfg tt ta) in R'. rewrite R in R'. inversion R'; subst. exact P.
+  - apply canon_names. exact Nm.
+Qed.
+
 (* without plainList: the markup parses back to exactly the forest of the calls - every string given to
    Write / Attr is decoded exactly, every name is one of ToHtml's constants *)
 Theorem html_no_injection_partial : forall tt ta, xml_table_ok tt ta = true ->
@@ -902,19 +1070,7 @@ Proof.
   cbn [seg] in H. destruct H as [f [E [W Nm U]]]. subst ops. specialize (U eq_refl).
   destruct (forest_wellformed tt ta Hok true true f U W) as [out [st [R P]]].
   change (cfg tt ta true true) with (html_cfg tt ta) in R.
-  exists f, out. rewrite R. repeat split; try assumption.
-  (* canonical forms keep the names *)
-  unfold canon_forest. destruct (forallb is_tx f).
-  - unfold tx_join. destruct (tx_concat f); reflexivity.
-  - assert (CN : forall n, hnames n = true -> hnames (canon n) = true).
-    { induction n as [s|name a kids IH] using node_ind'; intro Hn; [reflexivity|].
-      unfold hnames in *. cbn [names_in canon] in *. apply andb_true_iff in Hn. destruct Hn as [Hn Hk]. rewrite Hn. cbn [andb].
-      destruct (forallb is_tx kids).
-      - unfold tx_join. destruct (tx_concat kids); reflexivity.
-      - rewrite forallb_forall in *. rewrite Forall_forall in IH. intros x Hx.
-        apply in_map_iff in Hx. destruct Hx as [y [Ey Hy]]. subst x. apply IH; [exact Hy|apply Hk; exact Hy]. }
-    rewrite forallb_forall in *. intros x Hx. apply in_map_iff in Hx. destruct Hx as [y [Ey Hy]]. subst x.
-    apply CN. apply Nm. exact Hy.
+  exists f, out. rewrite R. repeat split; try assumption. apply canon_names. exact Nm.
 Qed.
 
 (* a failing closure style reached inside the maxListSize cut-offs gives an error - whatever was
